@@ -122,6 +122,7 @@ def run(ck, F, E):
                    "run_next_statement gained a caller: %s" % cs)
 
     # ---- (2) nesting is a chain
+    from lib import allowed_via_callers
     G = panics.CallGraph(F)
     es = F.one("StatementEvaluator::evaluate_statement")
     if es is not None:
@@ -133,7 +134,7 @@ def run(ck, F, E):
         so = F.one("StatementEvaluator::evaluate_statement_or_goto_line_number")
         if so is not None:
             cs2 = sorted({b.path for b, _ in callers_of(F, "StatementEvaluator::evaluate_statement_or_goto_line_number")})
-            ck.require(all(sfx(c, "StatementEvaluator::evaluate_if_statement") for c in cs2), "C09:CHAIN:if-only", "nesting is a chain",
+            ck.require(all(allowed_via_callers(F, c, ("StatementEvaluator::evaluate_if_statement",)) for c in cs2), "C09:CHAIN:if-only", "nesting is a chain",
                        "statement_or_goto_line_number is called only by evaluate_if_statement",
                        "evaluate_statement_or_goto_line_number is called from %s" % cs2)
         iff = F.one("StatementEvaluator::evaluate_if_statement")
